@@ -207,3 +207,152 @@ def h2(rep, F):
                         "to_mt_message emits the blocks in the order %s" % [k for k, _, _ in seq],
                         b["file"], b["line"]))
     return r
+
+
+# ---------------------------------------------------------------------------
+# H4: fixed-offset headers are written in the order they are read
+
+def _component_offsets(pb, pid, struct_path):
+    """{component path: smallest start offset of the input slices it is built from} for one header struct"""
+    lets = {}
+    for n in walk(pb["body"]):
+        if n.get("k") == "let" and n["pat"].get("k") == "bind" and n.get("init") is not None:
+            lets[n["pat"]["id"]] = n["init"]
+    out = {}
+
+    def fill(sexpr, prefix):
+        for f in sexpr.get("fields") or []:
+            e = f["e"]
+            inner = peel(e)
+            # nested struct expression or a local bound to one
+            tgt = None
+            if isinstance(inner, dict) and inner.get("k") == "struct" and (inner.get("path") or "").startswith("headers::"):
+                tgt = inner
+            if isinstance(inner, dict) and inner.get("k") == "local" and inner["id"] in lets:
+                li = peel(lets[inner["id"]])
+                if isinstance(li, dict) and li.get("k") == "struct" and (li.get("path") or "").startswith("headers::"):
+                    tgt = li
+            if tgt is not None:
+                fill(tgt, prefix + f["name"] + ".")
+                continue
+            src = _slice_sources(e, lets, pid)
+            starts = [a for a, b in src if isinstance(a, int)]
+            if starts:
+                out[prefix + f["name"]] = min(starts)
+    for n in walk(pb["body"]):
+        if n.get("k") == "struct" and (n.get("path") or "") == struct_path:
+            fill(n, "")
+    return out
+
+
+def _emission_order(db, roots):
+    """component paths in the order a Display body writes them (main format! + following push_str calls)"""
+    lets = {}
+    for n in walk(db["body"]):
+        if n.get("k") == "let" and n["pat"].get("k") == "bind" and n.get("init") is not None:
+            lets[n["pat"]["id"]] = n["init"]
+        if n.get("k") == "letx":
+            for q in _binds(n["pat"]):
+                lets[q["id"]] = n["init"]
+
+    def paths(e, depth=0):
+        out = []
+        for x in walk(e):
+            if x.get("k") == "field":
+                chain = []
+                y = x
+                while isinstance(y, dict) and y.get("k") == "field":
+                    chain.append(y["name"])
+                    y = peel(y["e"])
+                if isinstance(y, dict) and y.get("k") == "local" and y.get("id") in roots:
+                    out.append(".".join(reversed(chain)))
+            if x.get("k") == "local" and x.get("id") in lets and x.get("id") not in roots and depth < 4:
+                out += paths(lets[x["id"]], depth + 1)
+        # keep only maximal paths
+        return [p for p in out if not any(q != p and q.startswith(p + ".") for q in out)]
+
+    fmts = [n for n in walk(db["body"]) if n.get("k") == "fmt" and len(n.get("args") or []) >= 3]
+    if not fmts:
+        return []
+    main = max(fmts, key=lambda n: len(n["args"]))
+    seq = []
+    for a in main["args"]:
+        ps = paths(a)
+        if ps:
+            seq.append(ps[0])
+    after = False
+    for n in walk(db["body"]):
+        if n is main:
+            after = True
+        if after and n.get("k") == "mcall" and n.get("m") == "push_str":
+            ps = paths(n.get("args") or [])
+            if ps:
+                seq.append(ps[0])
+    return seq
+
+
+def _binds(p):
+    if not isinstance(p, dict):
+        return
+    if p.get("k") == "bind":
+        yield p
+    for q in p.get("pats") or []:
+        yield from _binds(q)
+    if p.get("pat"):
+        yield from _binds(p["pat"])
+    for f in p.get("fields") or []:
+        yield from _binds(f.get("pat"))
+
+
+def h4(rep, F):
+    r = rep.rule("H4", "fixed-offset headers are written in the order they are read: the components a Display "
+                       "implementation of block 1 / block 2 emits follow increasing byte offsets of the slices "
+                       "from which parse builds them (all Display variants of the output header included)", floor=4)
+    cases = [("headers::BasicHeader", "headers::BasicHeader", "headers::BasicHeader"),
+             ("headers::ApplicationHeader", "headers::InputApplicationHeader", "headers::InputApplicationHeader"),
+             ("headers::ApplicationHeader", "headers::OutputApplicationHeader", "headers::OutputApplicationHeader"),
+             ("headers::ApplicationHeader", "headers::OutputApplicationHeader", "headers::ApplicationHeader")]
+    for pty, sty, dty in cases:
+        pb = F.fn(pty, "parse", None)
+        db = _display_fn(F, dty)
+        if pb is None or db is None:
+            rep.fail_closed("H4: parse of %s or Display of %s not found" % (pty, dty))
+            continue
+        ps = pb.get("params") or []
+        pid = ps[0]["id"] if ps and ps[0].get("k") == "bind" else None
+        offs = _component_offsets(pb, pid, sty)
+        # roots of the Display: self, and variables bound by matching on self (enum arms)
+        roots = set()
+        for p in db.get("params") or []:
+            if p.get("k") == "bind" and p.get("name") == "self":
+                roots.add(p["id"])
+        body = db["body"]
+        if dty.endswith("ApplicationHeader") and dty == "headers::ApplicationHeader":
+            # the Output arm
+            body = None
+            for n in walk(db["body"]):
+                if n.get("k") == "match":
+                    for a in n["arms"]:
+                        if "Output" in (a["pat"].get("path") or ""):
+                            body = a["body"]
+                            for q in _binds(a["pat"]):
+                                roots.add(q["id"])
+            if body is None:
+                continue
+        seq = _emission_order({"body": body}, roots)
+        r["instances"] += 1
+        r.setdefault("orders", {})[dty + "/" + sty.rsplit("::", 1)[-1]] = [(c, offs.get(c)) for c in seq]
+        last = -1
+        for c in seq:
+            o = offs.get(c)
+            if o is None:
+                continue
+            if o < last:
+                rep.add(Finding("H4", db["path"], "%s:%s" % (sty.rsplit("::", 1)[-1], c),
+                                "Display of %s writes component `%s` (read from byte %d) after a component read from "
+                                "byte %d: the re-serialised header has its components in a different order than "
+                                "the text that was parsed" % (sty.rsplit("::", 1)[-1], c, o, last), db["file"], db["line"]))
+            last = max(last, o)
+        if len([c for c in seq if c in offs]) < 3:
+            rep.fail_closed("H4: could not relate the Display of %s to the offsets of parse (%s)" % (dty, seq))
+    return r
